@@ -152,6 +152,12 @@ def gen_spec(seed):
             eqs.append({'lhs': ('d', i), 'terms': [term(None, allowed, True, not_state=i) for _ in range(rng.randint(1, 2))]})
         elif v['kind'] == 'param':
             eqs.append({'lhs': ('v', i), 'const': v['value']})
+    # some definitions are written in ANOTHER unit of the variable's dimension (a variable declared in mV, defined by an
+    # expression in volt): conversions treat the defining expression as the plain number it is
+    for e in eqs:
+        if e['lhs'][0] == 'v' and rng.random() < 0.25:
+            fam = [f for f in FAMILIES if vs[e['lhs'][1]]['unit'] in f][0]
+            e['rhs_unit'] = rng.choice(fam)
     rng.shuffle(eqs)
     return {'seed': seed, 'vars': vs, 'eqs': eqs}
 
@@ -178,6 +184,8 @@ def build_model(spec):
             lhs_unit = lhs_unit / U(spec['vars'][0]['unit'])
         else:
             lhs = objs[i]
+            if e.get('rhs_unit'):
+                lhs_unit = U(e['rhs_unit'])
         if 'const' in e:
             rhs = m.create_quantity(float(Fraction(e['const'])), lhs_unit)
         else:
